@@ -406,6 +406,9 @@ pub fn write_plan(env: &RealEnv, w: &World, inv: &RInv, rng: &mut Rng) {
                         o.set("depfile", J::strs([d.clone(), depfile_text(s, rng)]));
                     }
                 }
+                if s.msvc {
+                    o.set("plain_output", J::strs([format!("{}: compiling", s.id)]));
+                }
             } else if s.msvc {
                 // a failing compiler prints its include notes too
                 o.set("showincludes", J::strs(s.extra_reads.iter().cloned()));
